@@ -40,6 +40,13 @@ def run(tier, seed):
     # call sequence that TraceCache.tla judges (MemExact, HitOnlyExactGen, RemoveThenMiss, TouchSetsRef, RefOnlyByTouch)
     conc = c16_cache.run_cache_conc(tier, seed, rd, fxv)
     viol += conc["violations"]
+    # CacheConc.tla: the concurrent design of the cache at critical-section granularity - every interleaving of the same
+    # programs on the model (MemExact in every state, UniqueKey, NoFlags, EvLockFree; the SplitRemove variant must fail),
+    # sampled behaviours replayed on the real cache, the real executions judged by TraceCache.tla
+    mviol, minfo = c16_cache.cache_model_part(tier, seed, rd, fxv)
+    viol += mviol
+    if minfo.get("design_violation"):
+        viol.append({"what": "model: CacheConc.tla " + minfo["design_violation"], "replay": v.save_replay("c16", "cacheconc_mc.txt", str(minfo)), "key": "mc cacheconc"})
     n, steps = (8, 450) if tier == "quick" else (80, 900)
     jobs = []
     pairs = []
@@ -66,10 +73,11 @@ def run(tier, seed):
         q.sample_events(st["sample_trace"]) + unit.get("samples", [])[:2],
         extra={"pairs_compared": compared, "cache_unit_traces": unit["traces"],
                "cache_unit_events": unit["events"],
-               "cache_concurrent": {k: conc[k] for k in ("programs", "schedules", "traces", "events")}})
-    cov["traces_validated_against_impl"] += unit["traces"] + conc["traces"]
-    cov["evaluations"] += unit["events"] + conc["events"]
-    cov["states"] += conc["states"]
+               "cache_concurrent": {k: conc[k] for k in ("programs", "schedules", "traces", "events")},
+               "cacheconc_model": minfo})
+    cov["traces_validated_against_impl"] += unit["traces"] + conc["traces"] + minfo["traces"]
+    cov["evaluations"] += unit["events"] + conc["events"] + minfo["events"]
+    cov["states"] += conc["states"] + minfo["model_states"]
     cov["transitions"] += conc["transitions"]
     return {"level": "model_checking", "coverage": cov, "violations": viol,
             "assumptions": ["cache entry identity read through verif_entries (hook)"]}
